@@ -528,6 +528,7 @@ func exec1(rec any) *core.Outcome {
 	out.ProbeN("max_nesting_ge12", b2i(m.maxNest >= 12))
 	out.ProbeN("lazy_load_fired", res.C.LazyFired)
 	out.ProbeN("on_demand_declarations", res.C.OnDemand)
+	out.ProbeN("overload_family_calls", res.C.Overloaded)
 	for _, k := range core.SortedKeys(m.kinds) {
 		out.ProbeN("opened_"+k, m.kinds[k])
 	}
